@@ -2,7 +2,7 @@ from .core import BASE_TRUST
 
 META = {
     "category": "proof",
-    "text": "Lean 4 theorems over the session machine of C01 with commits by other processes as explicit steps: read_stable - once a table is loaded, a later read shows exactly the loaded data plus the transaction's own changes whatever other processes commit in between; locked_file_protected; own_changes_visible; reload_exception / no_second_reload - the only reload is the first update access after a plain SELECT, never again; fresh_after_commit / fresh_after_rollback; full-history forms (locked_view_is_own_changes, read_shows_loaded_plus_own_changes, unlocked_view_stable: ANY interleaving of own statements with foreign commits up to the next COMMIT/ROLLBACK). The cache decision of cacheViewFromFile is REGENERATED from load_view.go / transaction.go on every run (extract/cachefacts: the reload condition and the ForUpdate flag assignment as Bool functions, the structured effects of the load branch, the cache clearing at COMMIT/ROLLBACK) and load_eq_gen proves the model's `load` equal to the one written with the regenerated condition; gen_cache_load_eq_ref, gen_plain_read_releases, gen_flag_set_on_every_load, gen_dispose_before_reload, gen_failed_locked_load_releases, gen_cache_cleared_at_end are theorems over the regenerated lists. Also tied to /repo by the same differential histories as C01, where the harness plays the other process and rewrites a file between two statements whenever the transaction holds no lock on it",
+    "text": "Lean 4 theorems over the session machine of C01 with commits by other processes as explicit steps: read_stable - once a table is loaded, a later read shows exactly the loaded data plus the transaction's own changes whatever other processes commit in between; locked_file_protected; own_changes_visible; reload_exception / no_second_reload - the only reload is the first update access after a plain SELECT, never again; fresh_after_commit / fresh_after_rollback; full-history forms (locked_view_is_own_changes, read_shows_loaded_plus_own_changes, unlocked_view_stable: ANY interleaving of own statements with foreign commits up to the next COMMIT/ROLLBACK). The cache decision of cacheViewFromFile is REGENERATED from load_view.go / transaction.go on every run (extract/cachefacts: the reload condition and the ForUpdate flag assignment as Bool functions, the structured effects of the load branch, the cache clearing at COMMIT/ROLLBACK) and load_eq_gen proves the model's `load` equal to the one written with the regenerated condition; gen_cache_load_eq_ref, gen_plain_read_releases, gen_flag_set_on_every_load, gen_dispose_before_reload, gen_failed_locked_load_releases, gen_cache_cleared_at_end are theorems over the regenerated lists; gen_locked_load_opens_after_lock / gen_plain_load_opens_after_rlock (extract/fsproto, regenerated from lib/file/handler.go): the table is opened only after the lock file exists, which is what makes the model's locked load (it reads the current file) true of the code. Also tied to /repo by the same differential histories as C01, where the harness plays the other process and rewrites a file between two statements whenever the transaction holds no lock on it",
     "design_ref": "DESIGN.md section 5, C01 and C20",
     "note": "trusted: Lean kernel; harness + driver; a second real csvq process would be blocked by the lock (C09) exactly when the harness refrains from writing; the in-procedure external writer ($sh) variant is not used",
     "technique": "Lean 4 machine-checked proof over a session state machine with environment steps + regenerated cache decision (extract/cachefacts) + differential correspondence with an injected second writer",
@@ -12,13 +12,17 @@ META = {
 def run(run):
     q = run.tier == "quick"
     run.regen("cachefacts", ["go", "run", "-C", "extract/cachefacts", "."], "Csvq/Gen/CacheFacts.lean")
+    run.regen("fsproto", ["go", "run", "-C", "extract/fsproto", "."], "Csvq/Gen/FsProto.lean")
     run.obligations_for(["Csvq.Props.C20"])
-    run.stream("c01", 500 if q else 4000, seed_offset=100, model="C01", timeout=3000)
+    csvq = run.build_csvq()
+    # the real-process part of this stream is the locked reload only (the endings corpus belongs to C01)
+    env = {"VERIF_CSVQ": str(csvq), "VERIF_RELOAD": "only"} if csvq else {}
+    run.stream("c01", 500 if q else 4000, seed_offset=100, model="C01", timeout=3000, env=env)
     if not q:
         run.stream("c01", 3000, seed_offset=101, model="C01", timeout=3000)
     return run.finish(
         level="proof",
         rule="as C01 (in-process part): histories with other-process commits injected between statements; non-trivial = distinct (ending, length, final disk) signature",
-        trusted_base=BASE_TRUST + ["extract/cachefacts (go/ast, fails closed; unreviewed calls become call(fn) tokens)"],
+        trusted_base=BASE_TRUST + ["extract/cachefacts and extract/fsproto (go/ast, fail closed; unreviewed calls become call(fn) tokens)"],
         checker_cmd="cd /verif/lean && lake build Csvq.Props.C20 && lake env lean <#print axioms for every theorem>",
     )
